@@ -114,6 +114,34 @@ def forge_cross_type_acks(cfg, s, tx, real_p, neg):
     return out
 
 
+def forge_other_encoding(cfg, s, tx, real_p, session_key):
+    """A server that accepts both encodings on one port (prudp.version = 2): packets in the encoding the connection does NOT use,
+    addressed to it from its peer's address, by somebody who knows the access key, the addresses, the session id and the sequence
+    ids but not the session key. The connection was established in one encoding; a packet in the other one can never verify."""
+    from nintendo.nex import prudp
+    other = 1 - cfg.version
+    enc = prudp.PRUDPMessageSelector(s).select(other)
+    out = []
+    for ptype, flags, payload in [(3, 2 | 4, b""), (3, 1, b""), (2, 1, b""), (2, 2 | 4 | 8, b"forged"), (4, 2 | 4, b""), (4, 1, b""), (3, 0, b"")]:
+        for delta in (1, 0):
+            p = prudp.PRUDPPacket(ptype, flags)
+            p.version = other
+            p.source_type, p.source_port, p.dest_type, p.dest_port = real_p.source_type, real_p.source_port, real_p.dest_type, real_p.dest_port
+            p.session_id = real_p.session_id
+            p.packet_id = (real_p.packet_id + delta) & 0xFFFF
+            p.fragment_id = 0
+            p.substream_id = 0
+            p.payload = payload
+            csig = enc.calc_connection_signature(tx.src)
+            for sk in ([bytes(len(session_key)), b""] if session_key else [b""]):
+                try:
+                    p.signature = enc.calc_packet_signature(p, sk, csig)
+                    out.append(("other-encoding", ptype, flags, enc.encode(p)))
+                except Exception:
+                    pass
+    return out
+
+
 def forge_unknown_peer_connects(cfg, s, real_connect):
     """a CONNECT from an address that never sent a SYN, signed with a cookie the server never handed out (none, zeros, another address's)"""
     from nintendo.nex import prudp
@@ -290,7 +318,15 @@ def make_setup(cfg, mode, plan_filter, seed, allow=None):
             for kind, ptype, flags, fdata in forge_variants(cfg, s, obs, tx, out.session_key, random.Random(seed ^ 0x77), pk[0]):
                 if kind == "access-key" and ptype in (2, 4):
                     inj(tx.src, tx.dst, fdata, D + 0.1875 + 0.375 * ((ptype + flags) % 9 + 1), ("forged", kind, ptype, flags, tx.n))
+        def on_tx_other(tx):
+            pk = obs.decode(tx.data)
+            if not pk or pk[0].flags & 1 or not pk[0].flags & 2 or pk[0].type not in (2, 3):
+                return
+            for kind, ptype, flags, fdata in forge_other_encoding(cfg, s, tx, pk[0], out.session_key):
+                inj(tx.src, tx.dst, fdata, D + (EPS if flags & 4 else 3 * EPS), ("forged", kind, ptype, flags, tx.n))
         def on_tx(tx):
+            if mode == "other-encoding":
+                return on_tx_other(tx)
             if mode == "idle-trickle":
                 return on_tx_trickle(tx)
             if mode.startswith("connect-replay"):
@@ -390,8 +426,11 @@ def run_pair(cfg, seed, mode, plan_filter=None, allow=None, want_ref=True):
     # (decided by the datagram's content and how often it has been sent, not by a global index: two endpoints acting at
     # the same virtual instant have no defined order)
     fate = lambda sim, r: loss_fate(seed)
-    ref = ps.run_session(cfg, seed & 0xFFFF, script, fate, phases_gap=1.0) if want_ref else None
-    att = ps.run_session(cfg, seed & 0xFFFF, script, fate, phases_gap=1.0, setup=make_setup(cfg, mode, plan_filter, seed, allow))
+    cfg_s = None
+    if mode == "other-encoding":
+        cfg_s = ps.Cfg(**dict(cfg.describe(), version=2))       # the server takes v0 and v1 on one port; the client uses cfg.version
+    ref = ps.run_session(cfg, seed & 0xFFFF, script, fate, phases_gap=1.0, cfg_s=cfg_s) if want_ref else None
+    att = ps.run_session(cfg, seed & 0xFFFF, script, fate, phases_gap=1.0, setup=make_setup(cfg, mode, plan_filter, seed, allow), cfg_s=cfg_s)
     return ref, att
 
 
@@ -406,7 +445,7 @@ def strict(cfg, desc):
     control state (v0 signs data only) but must never make a payload appear"""
     if is_d18(desc):
         return False
-    if desc[0] == "forged" and desc[1] == "unknown-peer-connect":
+    if desc[0] == "forged" and desc[1] in ("unknown-peer-connect", "other-encoding"):
         return True          # "in every encoding a handshake packet with a wrong signature establishes nothing"
     if cfg.version != 0:
         return True
@@ -566,6 +605,9 @@ def run(ctx):
                     cfgd = dict(base, version=version, credentials=creds)
                     if version == 0: cfgd["v0"] = (0, 1, 1)
                     jobs.append((n, cfgd, ctx.rng.getrandbits(32), "connect-replay:%s:%d" % (variant, nth))); n += 1
+    for version, v0 in ((1, (0, 1, 1)), (1, (1, 0, 0)), (0, (0, 1, 1))) + (() if quick else ((0, (1, 0, 0)), (1, (0, 0, 0)), (1, (1, 1, 1)))):
+        for creds in (True, False):
+            jobs.append((n, dict(base, version=version, v0=v0, credentials=creds), ctx.rng.getrandbits(32), "other-encoding")); n += 1
     for _ in range(6 if quick else 60):
         jobs.append((n, dict(base, version=1, credentials=ctx.rng.random() < 0.5, max_substream=ctx.rng.choice([0, 1]),
                              fragment_size=ctx.rng.choice([3, 7, 50])), ctx.rng.getrandbits(32), "flip1-sample")); n += 1
@@ -579,7 +621,7 @@ def run(ctx):
             for key, what in bad:
                 ctx.violation(("c04:%s:v%d" % (key, cfgd["version"])) if not key.startswith("KNOWN:") else "c04:" + key[6:], what, {"cfg": cfgd, "seed": seed, "mode": mode,
                               "how": "harness/corr_C04.py work((0, cfg, seed, mode))"})
-            r = l1_corr.compare(drv, att, "x") if att is not None else {"ok": True, "diffs": [], "skipped": True}
+            r = l1_corr.compare(drv, att, "x") if att is not None and mode != "other-encoding" else {"ok": True, "diffs": [], "skipped": True}
             if not r["ok"]:
                 ndiff += 1
                 if first is None:
